@@ -1022,3 +1022,47 @@ func isSDKContext(t types.Type) bool {
 	n, ok := t.(*types.Named)
 	return ok && n.Obj().Name() == "Context" && n.Obj().Pkg() != nil && n.Obj().Pkg().Path() == "github.com/cosmos/cosmos-sdk/types"
 }
+
+// OnlyWhenStore: every store to field `field` in fn lies under cond.
+func (c *Ctx) OnlyWhenStore(fnSpec, field, cond, desc string) {
+	c.StoreVarUnder(fnSpec, field, "_", cond, desc)
+}
+
+// BranchOn: fn branches on exactly the given condition (after normalisation) at least once, and on none of the
+// conditions listed in `never`.
+func (c *Ctx) BranchOn(fnSpec, cond string, never []string, desc string) {
+	role := "branchon/" + cond
+	cond = c.X(cond)
+	f := c.Fn(fnSpec)
+	if f == nil {
+		return
+	}
+	found := false
+	var seen []string
+	for _, b := range f.Fn.Blocks {
+		iff, ok := b.Instrs[len(b.Instrs)-1].(*ssa.If)
+		if !ok {
+			continue
+		}
+		for _, pol := range []bool{true, false} {
+			cd := Normalize(f.Term(iff.Cond), pol)
+			if pol {
+				seen = append(seen, cd.String())
+			}
+			if matchCondAny(cond, cd) {
+				found = true
+			}
+			for _, nv := range never {
+				if matchCondAny(c.X(nv), cd) {
+					c.add("P", fnSpec, role, desc, report.Violated, "branches on "+cd.String(), c.ifPos(iff, f))
+					return
+				}
+			}
+		}
+	}
+	if !found {
+		c.add("P", fnSpec, role, desc, report.Violated, "no branch on "+cond+"; branches: "+short(strings.Join(seen, " ; ")), c.fnPos(f))
+		return
+	}
+	c.add("P", fnSpec, role, desc, report.OK, cond, c.fnPos(f))
+}
